@@ -221,7 +221,12 @@ def expand_effect_check(eng, tier, seed):
 EXTRA_CHECKS = [expand_effect_check]
 
 NATIVE = c01.NATIVE
-NATIVE_BUDGET = {"quick": 40, "thorough": 1000}
+import os as _os
+
+# PYVC_NATIVE_BUDGET=0 switches the native cross-check off (used for mutants that make the real code enumerate 2**63-fold
+# sums: the native run then only burns time / memory until its limits)
+NATIVE_BUDGET = {"quick": int(_os.environ.get("PYVC_NATIVE_BUDGET", "40")),
+                 "thorough": int(_os.environ.get("PYVC_NATIVE_BUDGET", "1000"))}
 NOT_COVERED = []
 EXPLANATION = ""
 ASSUMPTIONS = []
